@@ -260,6 +260,16 @@ def run(ctx):
         res.site(key, True, {"mechanism": sorted(set(parity)), "verdict": "ok" if ok else "VIOLATION"})
         if not ok:
             res.find(key, scan[0].loc(), "the quoted-string scanner does not track the parity of escape characters before a closing quote (no flag toggled per escape character, no run-length parity, no nom escaped combinator): a bounded look-behind misjudges `\\\\\\\"`", "the value `say \\\"hi\\\"` is written as `say \\\\\\\"hi...` and the lexer ends the literal early")
+    # quoted text is never rebuilt byte by byte: a char made from a single byte re-encodes every non-ASCII character
+    from qv.props.common import byte_to_char_sites
+
+    key = "K6|byte-to-char-conversion"
+    lexfns = [f for f in db.fns if not f.is_derived() and (f.path.startswith("quil_rs::parser::lexer") or f.path.startswith("quil_rs::instruction::QuotedString") or "QuotedString" in f.path)]
+    hits = byte_to_char_sites(db, lexfns)
+    res.site(key, True, {"functions_scanned": len(lexfns), "conversions": [h[0].path for h in hits], "verdict": "ok" if not hits else "VIOLATION"})
+    res.count("lexer_and_quoting_functions", len(lexfns), floor=20)
+    if hits:
+        res.find(key, hits[0][0].loc(hits[0][1]), "%s builds a char from a single byte (%s) while handling quoted text: non-ASCII characters do not survive" % (hits[0][0].path.replace("quil_rs::", ""), hits[0][2]), "`PRAGMA note \"µ\"` comes back as `Âµ`")
     res.explanation = (
         "Effect confinement for the quote character over the %d functions reachable from the %d Quil::write impls (MIR constants and un-expanded templates, two independent readings): "
         "%d quoting sites inside QuotedString::fmt (positive control), %d elsewhere (must be 0). The escape table extracted from QuotedString::fmt and the str::replace list of the lexer must be inverse; "
